@@ -56,6 +56,17 @@ def gen_outlier_data(rng):
     return nd, series, True, groups
 
 
+def gen_dup_data(rng):
+    """many exact copies of a few short small-integer prototypes: clusters whose members all lie at the same
+    (irrational) distance from the mean, so that the spread of the distances inside a cluster is exactly zero"""
+    nd = rng.choice([1, 1, 2])
+    L = rng.randint(2, 3)
+    protos = [[[rng.randint(0, 3) for _ in range(nd)] for _ in range(L)] for _ in range(rng.randint(2, 4))]
+    n = rng.randint(6, 12)
+    series = [[list(pt) for pt in rng.choice(protos)] for _ in range(n)]
+    return nd, series, True
+
+
 def containers(nd, series, equal_len, rng):
     if nd == 1:
         arrs = [np.array([pt[0] for pt in s], dtype=float) for s in series]
@@ -73,6 +84,7 @@ def run(ctx):
     from dtaidistance import dtw, dtw_ndim
     res = Result()
     res.rule = ("random data sets (n > k series, ndim 1..2, grouped patterns with noise, exact duplicates, outliers, "
+                "a stream of many exact copies of few short prototypes with drop_stddev set, "
                 "equal/unequal lengths, list / matrix / 3-D containers) x k x seeds x initialisation (k-means++, "
                 "k-means++ with sample size, random) x drop_stddev x window/penalty x use_c x max_it/max_dba_it x "
                 "serial (and a few parallel, fit_fast) runs; every fit: keys 0..k-1, partition of all indices, k means, "
@@ -82,9 +94,15 @@ def run(ctx):
     rng = ctx.rng
     runs = 900 if ctx.thorough else 140
     par_budget = 30 if ctx.thorough else 6
-    for it in range(runs):
-        outlier_stream = it % 4 == 3
-        if outlier_stream:
+    dup_runs = 1500 if ctx.thorough else 320
+    for it in range(runs + dup_runs):
+        outlier_stream = it < runs and it % 4 == 3
+        dup_stream = it >= runs
+        if dup_stream:
+            nd, series, equal_len = gen_dup_data(rng)
+            n = len(series)
+            k = rng.randint(2, min(4, n - 1))
+        elif outlier_stream:
             nd, series, equal_len, k = gen_outlier_data(rng)
             n = len(series)
         else:
@@ -114,10 +132,14 @@ def run(ctx):
             drop = rng.choice([1, 1, 2])
             max_it = 10
             res.hit("outlier_stream")
+        if dup_stream:
+            drop = rng.choice([1, 2, 3])
+            max_it = rng.choice([5, 10])
+            res.hit("duplicate_prototype_stream")
         max_dba_it = rng.choice([1, 3, 10])
         seed = rng.randint(0, 10 ** 6)
         mode = "serial"
-        if par_budget > 0 and it % 20 == 7:
+        if par_budget > 0 and it % 20 == 7 and not dup_stream:
             mode = rng.choice(["parallel", "fit_fast"])
             par_budget -= 1
         info = {"ndim": nd, "series": series, "container": cname, "k": k, "opts": dict(opts), "init": init, "init_kw": kw,
